@@ -82,6 +82,10 @@ def _tight(cs: List[Con]) -> Dict[Tuple[str, str], int]:
     return out
 
 
+class Transformed(Exception):
+    """the code computes something recognisably different from what the rule requires"""
+
+
 def on_impl(chk: Check, rule: str, fname: str = "_nodes_on_interval_tree_impl") -> None:
     repo = chk.repo
     f = util_function(repo, fname)
@@ -94,6 +98,9 @@ def on_impl(chk: Check, rule: str, fname: str = "_nodes_on_interval_tree_impl") 
     bias = biases.pop()
     try:
         cons, zero, facts = _extract_tree_helper(f, bias, want_yield_on=True)
+    except Transformed as e:
+        chk.ob(rule, key + ":prefilter-is-the-query", False, f.loc(), "%s: %s" % (key, e), 2)
+        return
     except Outside as e:
         raise AnalysisError("%s is outside the boundary-logic fragment: %s" % (key, e))
     got = _tight(cons)
@@ -140,8 +147,20 @@ def _extract_tree_helper(f: FuncInfo, bias: int, want_yield_on: bool):
         if p and adj and p == (adj[0],):
             return {"ADJ": 1}, 0
         return None
-    lo = _lin(lp.iter.args[0], qsym)
-    hi = _lin(lp.iter.args[1], qsym)
+    al_b = local_aliases(f.node)
+
+    def _bound(e: ast.AST) -> ast.AST:
+        return al_b.get(e.id, e) if isinstance(e, ast.Name) else e
+    for which, arg in (("lower", lp.iter.args[0]), ("upper", lp.iter.args[1])):
+        b_ = _bound(arg)
+        calls_ = [c for c in ast.walk(b_) if isinstance(c, ast.Call)]
+        if calls_:
+            # the bound is a function (min, max, abs, ...) of the query bounds: not the query
+            raise Transformed("the tree is searched from a transformed %s bound (%s): the query range is "
+                              "start..stop as given (an empty or reversed range selects nothing)"
+                              % (which, unparse(b_)[:60]))
+    lo = _lin(_bound(lp.iter.args[0]), qsym)
+    hi = _lin(_bound(lp.iter.args[1]), qsym)
     if lo != ({"START": 1, "ADJ": 1}, 0) and lo != ({"START": 1}, 0):
         raise Outside("overlap lower bound is %s" % unparse(lp.iter.args[0]))
     if hi != ({"STOP": 1, "ADJ": 1}, 0) and hi != ({"STOP": 1}, 0):
@@ -293,6 +312,13 @@ def at_impl(chk: Check, rule: str, fname: str = "_nodes_at_interval_tree_impl") 
         if p == ("adjustment",):
             return {"ADJ": 1}, 0
         return None
+    transformed = [c for a_ in lp.iter.args[:2] for c in ast.walk(al.get(a_.id, a_) if isinstance(a_, ast.Name) else a_)
+                   if isinstance(c, ast.Call)]
+    if transformed:
+        chk.ob(rule, key + ":prefilter-covers-query", False, f.loc(lp),
+               "%s searches the tree from a transformed bound (%s): the pre-filter must be the query "
+               "range start..stop as given" % (key, unparse(transformed[0])[:60]), 2)
+        return
     try:
         lo = _lin(lp.iter.args[0], qsym)
         hi = _lin(lp.iter.args[1], qsym)
